@@ -115,7 +115,8 @@ fn exec(h: &History, revs: &[Rev]) -> HistOut {
     if h.start == "earlier-build" {
         // the repository's own checked-in ledger, written by an earlier build of the library
         for v in 0..2 {
-            let src = format!("/repo/savefile-test/schemas/savefile_ArgInterfaceV2_{}.schema", v);
+            let repo = std::env::var("SIM_REPO").unwrap_or_else(|_| "/repo".to_string());
+            let src = format!("{}/savefile-test/schemas/savefile_ArgInterfaceV2_{}.schema", repo, v);
             if let Ok(b) = std::fs::read(&src) {
                 let _ = std::fs::write(dir.join(format!("savefile_ArgInterfaceV2_{}.schema", v)), b);
                 recorded.insert(v, "argv2".to_string());
